@@ -19,6 +19,7 @@ type TunConn struct {
 	In        *wsraw.LegacyIn
 	Out       *wsraw.LegacyOut
 	Exited    bool
+	Broken    bool // the server stream could not be framed any more: the client hung up
 	exitIdx   int
 	OpenMark  int
 }
@@ -172,6 +173,10 @@ type Reaction struct {
 func (t *TunConn) Step(pkt []byte) (Reaction, error) {
 	var r Reaction
 	p := t.I.P
+	if t.Broken {
+		r.End, r.Skipped = true, true
+		return r, nil
+	}
 	if t.Exited {
 		// the packet loop is gone; whatever is sent now cannot be handled. Send
 		// anyway (errors are expected) - CheckSilence verifies nothing happened.
@@ -218,6 +223,19 @@ func (t *TunConn) Step(pkt []byte) (Reaction, error) {
 	}
 	for k := 0; k < nresp; k++ {
 		b, err := t.recvNonData(10 * time.Second)
+		if err != nil && p.Alive() {
+			// the gateway says it wrote an answer, and what arrived cannot be cut into a packet by its length field (or
+			// ends before the length it announces, or does not arrive at all): that is an observation about the gateway's
+			// answer (not well-formed), and nothing after it on this connection can be read
+			d := tsgu.Decode(b)
+			d.WellForm, d.Why = false, err.Error()
+			d.HdrLen, d.WireLen = -2, len(b)
+			r.Resps = append(r.Resps, d)
+			// the client gives up on this connection: it closes it, and what follows in the script is not sent
+			r.End, t.Broken = true, true
+			t.Close()
+			break
+		}
 		if err != nil {
 			return r, fmt.Errorf("hooks report %d response(s) written but the client could not read #%d: %v", nresp, k+1, err)
 		}
@@ -244,7 +262,7 @@ func (t *TunConn) recvNonData(timeout time.Duration) ([]byte, error) {
 // AfterEnd reports hook activity of this tunnel's packet loop after it exited
 // (there must be none).
 func (t *TunConn) AfterEnd() []gw.Event {
-	if !t.Exited {
+	if !t.Exited || t.Broken {
 		return nil
 	}
 	t.I.P.Sync(t.Cid)
